@@ -480,7 +480,7 @@ package callbacks
 //@   min-sites 3
 //@   entry modelWritten == 0
 //@   assert record-has-the-key: !isZero [C09]
-//@   assert key-read-before-the-new-values-are-written-into-the-model: modelWritten == 0 [C09]
+//@   assert key-of-the-model-read-before-the-new-values-are-written-into-it: defined(dbName) || modelWritten == 0 [C09]
 //@ # The guard against an update or delete without conditions is asked in DryRun too (ToSQL shows what a real run
 //@ # would do: the error, not a statement without WHERE).
 //@ site guard-asked-in-dry-run-too
